@@ -260,6 +260,8 @@ def run_harness(pid, cfg, tier, seed, outdir, extra=None):
         if fn.endswith((".v", ".out", ".vo", ".glob", ".vok", ".vos", ".aux", ".json")):
             os.unlink(os.path.join(outdir, fn))
     cmd = [os.path.join(BIN, "harness"), cfg["harness"], "-out", outdir, "-seed", str(seed), "-tier", tier]
+    if tier == "thorough":
+        cmd += ["-shards", "96"]   # thorough case lists are 10-50 times longer: keep every shard within its coqc time limit
     if extra:
         cmd += extra
     to = cfg.get("harness_timeout", {}).get(tier, 1200 if tier == "quick" else 3600)
@@ -276,7 +278,9 @@ M_RE = re.compile(r"M\s*=\s*(\[[^\]]*\])", re.S)
 
 
 def eval_case_file(outdir, fn):
-    rc, out = sh(["timeout", "300", "coqc", "-Q", COQ, "X", "-w", "-notation-overridden", fn], cwd=outdir, timeout=330)
+    rc, out = sh(["timeout", "1500", "coqc", "-Q", COQ, "X", "-w", "-notation-overridden", fn], cwd=outdir, timeout=1530)
+    if rc == 124 and not out.strip():
+        out = "coqc did not finish within 1500 s on this shard (machine under load or shard too large)"
     m = M_RE.search(out)
     if rc != 0 or not m:
         return fn, None, out[-2000:]
